@@ -102,6 +102,8 @@ def vec(r, dim, **kw):
 
 def angle(r, core=False):
     k = r.random()
+    if k < 0.04:
+        return mpf(0)  # the exactly-zero stratum (identity rotation)
     if core or k < 0.7:
         return dyadic(r, -3.1, 3.1)
     if k < 0.8:
@@ -120,6 +122,8 @@ def factor(r, core=False):
 def beta(r, core=False, mp=True):
     k = r.random()
     s = r.choice([1, -1])
+    if k < 0.04:
+        return mpf(0)  # zero velocity: the identity boost
     if core or k < 0.7:
         return s * dyadic(r, 0.01, 0.9)
     if not mp:
@@ -137,6 +141,8 @@ def gamma(r, core=False):
 def beta3(r, core=False, mp=True):
     """velocity 3-vector with |beta| < 1"""
     v, lab = vec3(r, core=True)
+    if r.random() < 0.05:
+        return R.RV(0, 0, 0), lab + ":zero"  # representable only with z-longitudinal storage
     n = v.mag
     b = abs(beta(r, core=core, mp=mp))
     k = _round_dyadic(b / n, 40)
